@@ -7,7 +7,8 @@ CONSTANTS
  Ns = {2, 3, 4}
  MsgVecs <- MV23
  CCoins <- C4c
- SCoins <- C3a
+ SCoins <- C2d
  Tamper = FALSE
+ PowM <- TabPowM
 INVARIANTS Correct HonestAbort Refusal OneOnly Curious CuriousPairs
 CHECK_DEADLOCK FALSE
